@@ -111,5 +111,13 @@ Ok (VTuple [N2; (VInt (-1))]).
 (* site fact site_td_shortcut: `builtins.any((dim == 0 for dim in chain(newshape_a, newshape_b)))` present in sparse/numba_backend/_common.py:tensordot *)
 Definition site_td_shortcut : bool := true.
 
+(* fragment sv_dcn_outer_test from sparse/numba_backend/_common.py:_dot_coo_ndarray selector=None srchash=638841bb10b30445 *)
+Definition sv_dcn_outer_test (didx1 : pyv) (n : pyv) (ncols : pyv) : res pyv :=
+(t2_ <- (t3_ <- Ok n ;; py_lt didx1 t3_) ;; if cond t2_ then (t1_ <- Ok ncols ;; py_gt t1_ (VInt (0))) else Ok t2_).
+
+(* fragment sv_dcs_outer_test from sparse/numba_backend/_common.py:_dot_coo_ndarray selector=None srchash=638841bb10b30445 *)
+Definition sv_dcs_outer_test (didx1 : pyv) (n : pyv) (ncols : pyv) : res pyv :=
+(t2_ <- (t3_ <- Ok n ;; py_lt didx1 t3_) ;; if cond t2_ then (t1_ <- Ok ncols ;; py_gt t1_ (VInt (0))) else Ok t2_).
+
 (* site fact site_dot_out_shape: `out_shape = (a.shape[0], b.shape[1])` present in sparse/numba_backend/_common.py:_dot *)
 Definition site_dot_out_shape : bool := true.
